@@ -277,6 +277,19 @@ def resource_stream(F, S):
             out.append(ok("R-ORDER", inst, fn.loc(r["id"]), fn.qn, req, "facts at the return: " + facts_txt({f for f in site if f[0] in ("true", "false")})))
         else:
             out.append(bad("R-ORDER", inst, fn.loc(r["id"]), fn.qn, req, "facts at the return: " + facts_txt({f for f in site if f[0] in ("true", "false")})))
+    # the only names refused are those with a root component: any other refusal turns away names that a loose file or an
+    # archive member may carry (the listings report such names, and they must then resolve)
+    want_root = F.call_value(XF + "HasRootComponent", None, (fname,))
+    for th in [nd for nd in fn.nodes if nd["k"] == "CXXThrowExpr"]:
+        cid, in_then = enclosing_if_cond(fn, th["id"])
+        ct = fn.term(cid) if cid is not None else None
+        inst = RM + "::GetResourceStream#refuses-only-rooted@%s" % th.get("l")
+        req = "a name is refused only for having a root component"
+        if ct is not None and in_then and ct in (want_root, ("call", XF + "HasRootComponent", None, (fname,))):
+            out.append(ok("R-GUARD", inst, fn.loc(th["id"]), fn.qn, req, fmt_term(ct)))
+        else:
+            out.append(bad("R-GUARD", inst, fn.loc(th["id"]), fn.qn, req,
+                           "a refusal under `%s`: relative names are turned away instead of being looked up" % (fmt_term(ct) if ct else "no condition")))
     none_ok = (kinds["none-disabled"], kinds["none-final"], kinds["none-merged"]) in ((1, 1, 0), (0, 0, 1))
     if kinds["loose"] != 1 or kinds["archive"] != 1 or not none_ok:
         raise AnalysisBroken("GetResourceStream: unexpected set of returns %s" % kinds)
